@@ -257,26 +257,29 @@ async fn run_conv_inner(c: &ConvCase, out: &mut ConvOutcome, tol: Tolerate) -> C
         }
     }
 
-    // generated sync order, then round robin
-    let mut last_err: Vec<Option<(bool, String)>> = vec![None; ndev];
-    let mut sync_one = |d: usize| d;
-    let _ = &mut sync_one;
     let order: Vec<usize> = c.order.iter().map(|x| (*x as usize) % ndev).collect();
-    for d in order {
-        if do_sync(&mut w, d, &mut last_err, out, tol).await?.is_some() {
+    converge(&mut w, ndev, &order, out, tol).await
+}
+
+/// Sync in the given order, then round-robin to a fixpoint, and judge the fixpoint
+/// (oracles (a) and (b) of C04). Also used by C09 after an interleaved round.
+pub async fn converge(w: &mut SyncWorld, ndev: usize, order: &[usize], out: &mut ConvOutcome, tol: Tolerate) -> CheckResult {
+    let mut last_err: Vec<Option<(bool, String)>> = vec![None; ndev];
+    for d in order.iter().copied() {
+        if do_sync(w, d, &mut last_err, out, tol).await?.is_some() {
             return Ok(());
         }
     }
     let mut converged = false;
     for pass in 0..6 {
         out.passes = pass + 1;
-        let before = statuses(&w, ndev).await?;
+        let before = statuses(w, ndev).await?;
         for d in 0..ndev {
-            if do_sync(&mut w, d, &mut last_err, out, tol).await?.is_some() {
+            if do_sync(w, d, &mut last_err, out, tol).await?.is_some() {
                 return Ok(());
             }
         }
-        let after = statuses(&w, ndev).await?;
+        let after = statuses(w, ndev).await?;
         if before == after {
             converged = true;
             break;
@@ -351,7 +354,11 @@ async fn run_conv_inner(c: &ConvCase, out: &mut ConvOutcome, tol: Tolerate) -> C
             return Err(f);
         }
         let any_ok = differing.iter().any(|(d, _)| last_err[*d].is_none());
-        let sig = if any_ok {
+        let only_folder_set = differing.iter().all(|(_, diff)| diff.iter().all(|x| x.contains("only-right") || x.contains("only-left")));
+        let sig = if any_ok && only_folder_set {
+            // a folder exists on one side only although the account logs agree
+            "c04/fixpoint-success-but-diverged/folder-set".to_string()
+        } else if any_ok {
             "c04/fixpoint-success-but-diverged".to_string()
         } else {
             let k = differing.iter().filter_map(|(d, _)| last_err[*d].as_ref().map(|x| x.1.clone())).next().unwrap_or_default();
